@@ -5,6 +5,7 @@ import (
 	"go/ast"
 	"go/token"
 	"go/types"
+	"sort"
 	"strings"
 
 	"golang.org/x/tools/go/packages"
@@ -693,4 +694,58 @@ func exportNameNonEmpty(info *types.Info, conds []ast.Expr) bool {
 		}
 	}
 	return false
+}
+
+// c06IndexGuard: the pass marks and removes functions by name; removal shifts the function index space. Before it
+// removes anything DoPass must therefore establish that nothing names a function by index and that every function has
+// a name: an `if <guard> { return p.m }` at the top of DoPass whose guard (a predicate of the package, or the condition
+// itself) reads the names of the functions and function imports and the function references of exports and element
+// segments. Returns the fields the guard does not read.
+func c06IndexGuard(info *types.Info, pk *packages.Package, dp *ast.FuncDecl) (found bool, missing []string) {
+	need := map[string]bool{"Func.Name": false, "ImportSpec.FuncName": false, "ExportSpec.FuncIdx": false, "ElemSection.Values": false}
+	read := func(n ast.Node) {
+		ast.Inspect(n, func(m ast.Node) bool {
+			if se, ok := m.(*ast.SelectorExpr); ok {
+				if f := selField(info, se); f != "" {
+					if _, ok := need[f]; ok {
+						need[f] = true
+					}
+				}
+			}
+			return true
+		})
+	}
+	for _, s := range dp.Body.List {
+		ifs, ok := s.(*ast.IfStmt)
+		if !ok {
+			// only statements that do not remove or mark may precede the guard
+			continue
+		}
+		returnsModule := false
+		for _, bs := range ifs.Body.List {
+			if r, ok := bs.(*ast.ReturnStmt); ok && len(r.Results) == 1 && strings.HasSuffix(types.ExprString(r.Results[0]), ".m") {
+				returnsModule = true
+			}
+		}
+		if !returnsModule {
+			continue
+		}
+		found = true
+		read(ifs.Cond)
+		for _, call := range callsIn(info, []ast.Stmt{&ast.ExprStmt{X: ifs.Cond}}) {
+			if fn := CalleeOf(info, call); fn != nil && fn.Pkg() == pk.Types {
+				if hd := declOfFunc(pk, fn); hd != nil && hd.Body != nil {
+					read(hd.Body)
+				}
+			}
+		}
+		break
+	}
+	for f, ok := range need {
+		if !ok {
+			missing = append(missing, f)
+		}
+	}
+	sort.Strings(missing)
+	return
 }
